@@ -374,6 +374,19 @@ fn histories(thorough: bool) -> Vec<Hist> {
             }
         }
     }
+    // (quick tier: the remaining single-deviation histories come last, behind the ones that get the
+    // per-step insertion variants)
+    if !thorough {
+        for wl in [Wl::W1, Wl::W2] {
+            for i in 0..n {
+                for a in 0..FATE_ALTS.len() as u16 {
+                    if (i + a as u64) % 3 != 0 {
+                        v.push(mk("default", wl, vec![(i, a)], vec![], "none"));
+                    }
+                }
+            }
+        }
+    }
     v
 }
 
@@ -562,6 +575,10 @@ fn replay(args: &Args) -> ! {
             println!("first difference at line {i}:\n  ref: {}\n  var: {}", &x[..x.len().min(300)], &y[..y.len().min(300)]);
             for k in i.saturating_sub(4)..i {
                 println!("  ctx: {}", &la[k][..la[k].len().min(200)]);
+            }
+            for k in i..(i + 14) {
+                println!("  ref+{}: {}", k - i, la.get(k).map_or("<end>", |l| &l[..l.len().min(170)]));
+                println!("  var+{}: {}", k - i, lb.get(k).map_or("<end>", |l| &l[..l.len().min(170)]));
             }
             break;
         }
